@@ -32,7 +32,9 @@ import (
 //	sidmsg <sid> <resp 0|1> <noncelen> <key> <deckey> <cut>   => ok:<sid>,<resp>,<noncelen> | err
 //	        EncodeMessage with <key>, drop the last <cut> bytes, DecodeMessageInto with <deckey>
 //	pstart <id> <vkind> <ckind> <scenario>                    => <vport>,<cport> | fail:<why>
-//	        kind = e|r|h|i|x (easy, hard regular, hard irregular, ip changed, malformed) + a|n (assisted = own address | none)
+//	        kind = e|r|h|i|x (easy, hard regular, hard irregular, ip changed, malformed) + a|n|<N> (assisted = own address |
+//	        none | N = 0..12 further local addresses of a multi-homed party that do NOT lead to its hole-punching socket:
+//	        bound, idle sockets at ports p+2 .. p+1+N — nathole.Prepare announces up to 10 local IPs)
 //	        scenario = "-" or letters: g garbage, k other key, w wrong sid (a response), t truncated, i insider
 //	        (right key, right sid, not a response), m the owner holds another secret key, l the response of the
 //	        party that is not the sender arrives late (after the sender's probe)
@@ -51,6 +53,7 @@ type punchSess struct {
 	id         int
 	vConn      *net.UDPConn
 	cConn      *net.UDPConn
+	idle       []*net.UDPConn // the parties' other local addresses (assisted addresses that lead nowhere)
 	vAddr      string
 	cAddr      string
 	sid        string
@@ -77,17 +80,52 @@ type punchSess struct {
 var punchNextPort = 10000
 
 func punchListen() (*net.UDPConn, error) {
+	c, _, err := punchListenN(0)
+	return c, err
+}
+
+// punchIdleCount: the number of idle local addresses a kind asks for (its tail is a decimal number)
+func punchIdleCount(kind string) int {
+	if len(kind) < 2 {
+		return 0
+	}
+	n, err := strconv.Atoi(kind[1:])
+	if err != nil || n < 0 || n > 12 {
+		return 0
+	}
+	return n
+}
+
+// punchListenN binds a party's socket at port p and n idle sockets at p+2 .. p+1+n (p+1 and p+20 are the second
+// mapped address of the kinds r and h): all of them or none.
+func punchListenN(n int) (*net.UDPConn, []*net.UDPConn, error) {
 	for try := 0; try < 200; try++ {
 		port := punchNextPort
 		punchNextPort += 40
 		if punchNextPort >= 30000 {
 			punchNextPort = 10000
 		}
-		if c, err := net.ListenUDP("udp4", &net.UDPAddr{IP: net.IPv4(127, 0, 0, 1), Port: port}); err == nil {
-			return c, nil
+		c, err := net.ListenUDP("udp4", &net.UDPAddr{IP: net.IPv4(127, 0, 0, 1), Port: port})
+		if err != nil {
+			continue
+		}
+		idle := []*net.UDPConn{}
+		for j := 0; j < n; j++ {
+			ic, err := net.ListenUDP("udp4", &net.UDPAddr{IP: net.IPv4(127, 0, 0, 1), Port: port + 2 + j})
+			if err != nil {
+				break
+			}
+			idle = append(idle, ic)
+		}
+		if len(idle) == n {
+			return c, idle, nil
+		}
+		c.Close()
+		for _, ic := range idle {
+			ic.Close()
 		}
 	}
-	return nil, fmt.Errorf("no free port")
+	return nil, nil, fmt.Errorf("no free port")
 }
 
 // how late a receiver's response is in scenario l: after the sender's probe (1 s + 3 s in the many-socket modes)
@@ -121,6 +159,7 @@ func punchReset() {
 			s.cancel()
 			s.vConn.Close()
 			s.cConn.Close()
+			s.closeIdle()
 		}
 		punchSt.third.Close()
 		for _, c := range punchSt.src {
@@ -288,7 +327,17 @@ func punchAddrs(kind string, port int) (mapped, assisted []string) {
 	if kind[1] == 'a' {
 		assisted = []string{a}
 	}
+	for j := 0; j < punchIdleCount(kind); j++ {
+		assisted = append(assisted, "127.0.0.1:"+strconv.Itoa(port+2+j))
+	}
 	return
+}
+
+func (s *punchSess) closeIdle() {
+	for _, c := range s.idle {
+		c.Close()
+	}
+	s.idle = nil
 }
 
 // p = MakeHole returned the peer's own socket address, q = another socket of the peer, namely the one the peer's
@@ -354,11 +403,11 @@ func punchExec(tok []string) string {
 			return "fail:dup-id"
 		}
 		vkind, ckind, scn := tok[2], tok[3], tok[4]
-		vConn, err := punchListen()
+		vConn, vIdle, err := punchListenN(punchIdleCount(vkind))
 		if err != nil {
 			return "fail:listen"
 		}
-		cConn, err := punchListen()
+		cConn, cIdle, err := punchListenN(punchIdleCount(ckind))
 		if err != nil {
 			return "fail:listen"
 		}
@@ -367,7 +416,8 @@ func punchExec(tok []string) string {
 		_ = vConn.SetReadBuffer(4 << 20)
 		_ = cConn.SetReadBuffer(4 << 20)
 		s := &punchSess{id: id, vConn: vConn, cConn: cConn, vAddr: vConn.LocalAddr().String(), cAddr: cConn.LocalAddr().String(),
-			vOut: "x", cOut: "x", vTid: "tv" + tok[1], cTid: "tc" + tok[1], start: time.Now(), cancel: func() {}}
+			vOut: "x", cOut: "x", vTid: "tv" + tok[1], cTid: "tc" + tok[1], start: time.Now(), cancel: func() {},
+			idle: append(vIdle, cIdle...)}
 		s.smallBuf = punchRcvBuf(vConn) < 1<<20 || punchRcvBuf(cConn) < 1<<20
 		st.sess[id] = s
 		name := "p" + tok[1]
@@ -545,6 +595,7 @@ func punchExec(tok []string) string {
 		s.cancel()
 		s.vConn.Close()
 		s.cConn.Close()
+		s.closeIdle()
 		s.mu.Lock()
 		defer s.mu.Unlock()
 		if s.smallBuf && s.vResp != nil && s.cResp != nil &&
@@ -599,6 +650,7 @@ func punchGen(rng *rand.Rand, n int, emit func(string)) {
 			k := 6 + rng.Intn(5)
 			ids := []int{}
 			ee, stray := 0, 0
+			multi := 0
 			heavy := 0 // modes 2 and 4 open 256 sockets per receiver and take 4 s: at most three per batch
 			for j := 0; j < k; j++ {
 				vk, ck := pick(rng, kinds), pick(rng, kinds)
@@ -671,7 +723,23 @@ func punchGen(rng *rand.Rand, n int, emit func(string)) {
 				id := nextID
 				nextID++
 				ids = append(ids, id)
-				e(fmt.Sprintf("pstart %d %s%s %s%s %s", id, vk, pick(rng, []string{"a", "n"}), ck, pick(rng, []string{"a", "n"}), scn))
+				// assisted addresses (the peer's sender probes them BEFORE the mapped ones): the own address / none, or
+				// N further local addresses that lead nowhere — any N in 0..12 per side; nathole.Prepare announces
+				// up to 10 local IPs, so in every batch the first two fast honest sessions have fully multi-homed
+				// parties (10..12 addresses) on both sides, whichever of them the table makes the receiver
+				va, ca := pick(rng, []string{"a", "n"}), pick(rng, []string{"a", "n"})
+				switch h := rng.Intn(20); {
+				case h < 7:
+				case h < 11:
+					va, ca = strconv.Itoa(10+rng.Intn(3)), strconv.Itoa(10+rng.Intn(3))
+				default:
+					va, ca = strconv.Itoa(rng.Intn(13)), strconv.Itoa(rng.Intn(13))
+				}
+				if vk == "e" && ck == "e" && !strings.ContainsAny(scn, "mi") && multi < 2 {
+					va, ca = strconv.Itoa(10+rng.Intn(3)), strconv.Itoa(10+rng.Intn(3))
+					multi++
+				}
+				e(fmt.Sprintf("pstart %d %s%s %s%s %s", id, vk, va, ck, ca, scn))
 			}
 			for _, id := range ids {
 				e(fmt.Sprintf("pwait %d", id))
